@@ -87,7 +87,7 @@ CHECKS = {
         level='exploration',
         batches=[dict(scenario='c03fuzz', flavour='A', quick=30000, thorough=600000, corpus=dict(quick=600, thorough=4000)),
                  dict(scenario='c03fuzz', flavour='P', quick=40000, thorough=1000000, corpus=dict(quick=600, thorough=4000))],
-        rule='1-4 wire faults (bit flip, header bit flip, truncation, smear, stale splice, zeroed 4 KiB page, appended garbage, duplicated segment, length-field bump) on valid traffic (compressor frames, decodecorpus frames, legacy frames) or pure garbage with/without magic, damaged dictionary store; fed to 8 decode paths x 4 capacity modes + inspectors + block API + dictionary loaders; distinct = distinct plan signature',
+        rule='1-4 wire faults (bit flip, header bit flip, truncation, smear, stale splice, zeroed 4 KiB page, appended garbage, duplicated segment, length-field bump) on valid traffic (compressor frames, decodecorpus frames, legacy frames), pure garbage, or forged frames assembled bit by bit (one run in 16: Raw/RLE literals of chosen size biased beyond 64 KiB and to the block maximum, 0-6 sequences with RLE-mode tables and random / extreme / aimed lengths, true or lying content size; includes a split-literal squeeze template) with/without magic, damaged dictionary store; fed to 8 decode paths x 4 capacity modes + inspectors + block API + dictionary loaders; distinct = distinct plan signature',
         real=REAL_COMMON, stub=['the wire and the dictionary store (faults)', 'decoder-variant coins', 'allocator'],
         assumptions=['structure-preserving seeded mutation, not coverage-guided fuzzing: weaker than libFuzzer for deep near-valid inputs', 'streaming decoders run with windowLogMax 25 so that lying window descriptors cannot exhaust memory', 'flavour A (ASan+UBSan) is the detector; P adds guard-zone checks at higher volume'],
     ),
@@ -124,7 +124,7 @@ CHECKS = {
     'C16': dict(
         level='exploration',
         batches=[dict(scenario='c16params', flavour='P', quick=12000, thorough=600000), dict(scenario='c16params', flavour='A', quick=2000, thorough=60000)],
-        rule='histories of 4-30 (thorough 4-60) ops over one CCtx, one CCtxParams object and one DCtx: set (38 compression + 7 decompression parameters x value grid {lo-1,lo,lo+1,0,default,hi-1,hi,hi+1,INT_MIN,INT_MAX,random in-bounds}), reset (3 directives), start / end frame, provoked error + session reset, simple-API call, apply CCtxParams; after EVERY op all 83 getters are snapshotted and the invariants evaluated; distinct = distinct plan signature; non-trivial = at least 4 ops',
+        rule='histories of 4-30 (thorough 4-60) ops over one CCtx, one CCtxParams object and one DCtx: set (38 compression + 7 decompression parameters x value grid {lo-1,lo,lo+1,0,default,hi-1,hi,hi+1,INT_MIN,INT_MAX,random in-bounds}), reset (3 directives), start / end frame, announce a source size (exact / wrong / 0 / unknown), a frame streamed in two calls (where an announcement in force shows: srcSize_wrong, header field, or nothing after a session reset or a completed frame), provoked error + session reset, simple-API call, apply CCtxParams; after EVERY op all 83 getters are snapshotted and the invariants evaluated; distinct = distinct plan signature; non-trivial = at least 4 ops',
         real=REAL_COMMON, stub=['parameter reference model: invariants I-a..I-d plus table rows transcribed from zstd.h (plain read-back, boolean normalisation, updatable-mid-frame list, sticky flags observed in frame headers via the independent frame walker)'],
         assumptions=['zstd.h: "Providing a value beyond bound will either clamp it, or trigger an error (depending on parameter)" - so an accepted out-of-bounds set is not a violation as long as the value read back is inside the bounds (I-a)', '0 is tolerated by I-a for every parameter (documented as default/auto for most)', 'no schedule or clock here: the family contributes refinement of an API history against an executable model'],
     ),
